@@ -382,10 +382,14 @@ Section Keyed.
     intros H1 H2 k. rewrite (H1 k). apply H2.
   Qed.
 
+  Lemma kstep_unfold acc kx :
+    kstep acc kx = (v <- g (zlookup (fst kx) acc) (snd kx) ;; Ok (zupdate (fst kx) v acc)).
+  Proof. reflexivity. Qed.
+
   Lemma mfold_kstep_equiv l : forall a b, zequiv a b -> res_rel (mfold kstep l a) (mfold kstep l b).
   Proof.
     induction l as [|x r IH]; intros a b H; cbn [mfold]; [exact H|].
-    unfold kstep at 1 3. rewrite (H (fst x)).
+    rewrite (kstep_unfold a x), (kstep_unfold b x), (H (fst x)).
     destruct (g (zlookup (fst x) b) (snd x)) as [v| |]; cbn [bind res_rel]; try exact I.
     apply IH. apply zequiv_update. exact H.
   Qed.
@@ -396,35 +400,97 @@ Section Keyed.
   Proof.
     induction 1 as [|x l l' Hp IH|x y l|l l' l'' Hp1 IH1 Hp2 IH2]; intros Hn a b Hab.
     - exact Hab.
-    - cbn [mfold]. unfold kstep at 1 3. rewrite (Hab (fst x)).
+    - cbn [mfold]. rewrite (kstep_unfold a x), (kstep_unfold b x), (Hab (fst x)).
       destruct (g (zlookup (fst x) b) (snd x)) as [v| |]; cbn [bind res_rel]; try exact I.
       apply IH; [cbn [map] in Hn; inversion Hn; assumption|]. apply zequiv_update. exact Hab.
     - (* swap: distinct keys *)
       cbn [map] in Hn. inversion Hn as [|? ? Hnin Hn']; subst.
       assert (Hne : fst y <> fst x) by (intros E; apply Hnin; left; symmetry; exact E).
-      cbn [mfold]. unfold kstep at 1 3. rewrite (Hab (fst y)).
-      destruct (g (zlookup (fst y) b) (snd y)) as [vy| |] eqn:Ey; cbn [bind].
-      + unfold kstep at 1. rewrite zlookup_zupdate_neq by (intros E; apply Hne; symmetry; exact E).
-        rewrite (Hab (fst x)).
-        destruct (g (zlookup (fst x) b) (snd x)) as [vx| |] eqn:Ex; cbn [bind].
-        * unfold kstep at 2. rewrite zlookup_zupdate_neq by exact Hne. rewrite Ey. cbn [bind].
-          apply mfold_kstep_equiv. intros k.
-          destruct (Z.eq_dec k (fst x)) as [->|Hkx].
-          -- rewrite zlookup_zupdate_eq, zlookup_zupdate_neq by (intros E; apply Hne; symmetry; exact E).
-             rewrite zlookup_zupdate_eq. reflexivity.
-          -- rewrite (zlookup_zupdate_neq k (fst x)) by exact Hkx.
-             destruct (Z.eq_dec k (fst y)) as [->|Hky].
-             ++ rewrite !zlookup_zupdate_eq. reflexivity.
-             ++ rewrite !zlookup_zupdate_neq by assumption. apply Hab.
-        * exact I.
-        * exact I.
-      + destruct (g (zlookup (fst x) b) (snd x)) as [vx| |] eqn:Ex; cbn [bind]; try exact I.
-        unfold kstep at 1. rewrite zlookup_zupdate_neq by exact Hne. rewrite Ey. exact I.
-      + destruct (g (zlookup (fst x) b) (snd x)) as [vx| |] eqn:Ex; cbn [bind]; try exact I.
-        unfold kstep at 1. rewrite zlookup_zupdate_neq by exact Hne. rewrite Ey. exact I.
+      assert (Hne' : fst x <> fst y) by (intros E; apply Hne; symmetry; exact E).
+      cbn [mfold].
+      rewrite (kstep_unfold a y), (kstep_unfold b x), (Hab (fst y)).
+      destruct (g (zlookup (fst y) b) (snd y)) as [vy| |] eqn:Ey;
+        destruct (g (zlookup (fst x) b) (snd x)) as [vx| |] eqn:Ex; cbn [bind];
+        try rewrite (kstep_unfold (zupdate (fst y) vy a) x);
+        try rewrite (kstep_unfold (zupdate (fst x) vx b) y);
+        rewrite ?(zlookup_zupdate_neq (fst x) (fst y)) by exact Hne';
+        rewrite ?(zlookup_zupdate_neq (fst y) (fst x)) by exact Hne;
+        rewrite ?(Hab (fst x)), ?Ex, ?Ey; cbn [bind res_rel]; try exact I.
+      apply mfold_kstep_equiv. intros k.
+      destruct (Z.eq_dec k (fst x)) as [->|Hkx].
+      + rewrite zlookup_zupdate_eq, (zlookup_zupdate_neq (fst x) (fst y)) by exact Hne'.
+        rewrite zlookup_zupdate_eq. reflexivity.
+      + rewrite (zlookup_zupdate_neq k (fst x)) by exact Hkx.
+        destruct (Z.eq_dec k (fst y)) as [->|Hky].
+        * rewrite !zlookup_zupdate_eq. reflexivity.
+        * rewrite !zlookup_zupdate_neq by assumption. apply Hab.
     - apply res_rel_trans with (r2 := mfold kstep l' a).
       + apply IH1; [exact Hn|]. intros k. reflexivity.
       + apply IH2; [|exact Hab].
         eapply Permutation_NoDup; [apply Permutation_map; exact Hp1|exact Hn].
   Qed.
 End Keyed.
+
+(* what is printed of a keyed accumulator: entries looked up by sorted key *)
+Definition zview (r : list (Z * Qc)) : list (Z * Qc) :=
+  map (fun y => (y, match zlookup y r with Some v => v | None => 0%Qc end)) (zsort (map fst r)).
+
+Lemma zlookup_in_keys {V} k (l : list (Z * V)) : In k (map fst l) <-> exists v, zlookup k l = Some v.
+Proof.
+  split.
+  - induction l as [|[k' v'] r IH]; cbn [map fst zlookup]; [intros []|].
+    intros [E|Hin]; destruct (Z.eqb_spec k k') as [->|Hne]; eauto; congruence.
+  - intros [v Hv]. apply zlookup_some_in in Hv. change k with (fst (k, v)). apply in_map. exact Hv.
+Qed.
+
+Lemma zview_equiv r r' :
+  (forall k, zlookup k r = zlookup k r') -> NoDup (map fst r) -> NoDup (map fst r') -> zview r = zview r'.
+Proof.
+  intros H Hn Hn'. unfold zview.
+  assert (Hp : Permutation (map fst r) (map fst r')).
+  { apply NoDup_Permutation; try assumption. intros k. rewrite !zlookup_in_keys, (H k). reflexivity. }
+  rewrite (zsort_perm_eq _ _ Hp). apply map_ext. intros y. rewrite (H y). reflexivity.
+Qed.
+
+Lemma kstep_nodup {V X} (g : option V -> X -> res V) acc kx acc' :
+  NoDup (map fst acc) -> kstep g acc kx = Ok acc' -> NoDup (map fst acc').
+Proof.
+  intros Hn H. unfold kstep in H. destruct (g (zlookup (fst kx) acc) (snd kx)); cbn [bind] in H; try discriminate.
+  inversion H; subst. apply zupdate_nodup. exact Hn.
+Qed.
+Lemma mfold_kstep_nodup {V X} (g : option V -> X -> res V) l : forall acc acc',
+  NoDup (map fst acc) -> mfold (kstep g) l acc = Ok acc' -> NoDup (map fst acc').
+Proof.
+  induction l as [|x r IH]; intros acc acc' Hn H; cbn [mfold] in H.
+  - inversion H; subst. exact Hn.
+  - destruct (kstep g acc x) as [a1| |] eqn:E; cbn [bind] in H; try discriminate.
+    eapply IH; [|exact H]. eapply kstep_nodup; eassumption.
+Qed.
+
+(* cumulative_gains.rs: the per-year accumulation of one security's map *)
+Definition year_g (A : arith) (o : option Qc) (g : Qc) : res Qc :=
+  a_add A (match o with Some v => v | None => 0%Qc end) g.
+Lemma year_acc_kstep A acc yg : year_acc A acc yg = kstep (year_g A) acc yg.
+Proof. destruct yg. reflexivity. Qed.
+Lemma mfold_ext {S X} (f f' : S -> X -> res S) :
+  (forall s x, f s x = f' s x) -> forall l s, mfold f l s = mfold f' l s.
+Proof.
+  intros H. induction l as [|x r IH]; intros s; cbn [mfold]; [reflexivity|].
+  rewrite H. destruct (f' s x); cbn [bind]; try reflexivity. apply IH.
+Qed.
+
+Lemma year_acc_perm A ys ys' acc :
+  NoDup (map fst ys) -> Permutation ys ys' -> NoDup (map fst acc) ->
+  match mfold (year_acc A) ys acc, mfold (year_acc A) ys' acc with
+  | Ok r, Ok r' => zview r = zview r'
+  | Ok _, _ | _, Ok _ => False
+  | _, _ => True
+  end.
+Proof.
+  intros Hn Hp Ha. rewrite !(mfold_ext _ _ (year_acc_kstep A)).
+  assert (H := keyed_rebuild_perm (year_g A) ys ys' Hp Hn acc acc (fun k => eq_refl)).
+  unfold res_rel in H.
+  destruct (mfold (kstep (year_g A)) ys acc) as [r| |] eqn:E1;
+    destruct (mfold (kstep (year_g A)) ys' acc) as [r'| |] eqn:E2; try exact H; try exact I.
+  apply zview_equiv; [exact H| |]; eapply mfold_kstep_nodup; eassumption.
+Qed.
